@@ -82,19 +82,15 @@ Proof. exact ops_after_le_max_gap. Qed.
 Print Assumptions ops_after_cancel_le_longest_stretch.
 
 (* FULL STATEMENT (DESIGN): for every context-accepting entry point f, every tree and every k, the operations after
-   cancellation are bounded by a constant B_f.  PROVED here for the walk family (WalkWithContext, LsRecursive*,
-   ChmodRecursively, ChownRecursively, ChangeOwnershipRecursively: any callback cost cb) and for ListDirTree, over
-   all trees and all k; the remaining entry points (remove, copy, move, zip, unzip) are covered by the measured
-   sweeps of the harness only. *)
-Theorem ops_after_cancel_bounded_partial : forall (t : tree) (k : nat),
-  (forall cb, ops_after k (walk_entry cb t) <= B_walk cb)%nat /\
-  (ops_after k (chmod_entry t) <= B_walk 1)%nat /\
-  (ops_after k (listtree_entry t) <= B_listtree)%nat.
-Proof.
-  intros t k. repeat split; [intros cb|..];
-  (eapply Nat.le_trans; [apply ops_after_le_max_gap|]);
-  [apply walk_entry_gap | apply chmod_entry_gap | apply listtree_entry_gap].
-Qed.
+   cancellation are bounded by a constant B_f.  PROVED here, over all trees and all k, for the walk family
+   (WalkWithContext, LsRecursive*, ChmodRecursively, ChownRecursively, ChangeOwnershipRecursively: any callback cost),
+   ListDirTree, RemoveWithContext / RemoveWithPrivileges (B = 40), CleanDirWithContext (40), CopyWithContext /
+   CopyBetweenFS of a directory (30, deferred Close calls included) and MoveWithContext when Rename is refused (56).
+   NOT covered by a theorem (measured sweeps of the harness only): zip, unzip, the exclusion-pattern variants, single
+   file reads/writes; garbage collection is refuted below. *)
+Theorem ops_after_cancel_bounded_partial : forall (e : epk) (t : tree) (k : nat),
+  (ops_after k (ep_trace e t) <= ep_bound e)%nat.
+Proof. intros e t k. eapply Nat.le_trans; [apply ops_after_le_max_gap | apply ep_gap]. Qed.
 Print Assumptions ops_after_cancel_bounded_partial.
 
 (* Garbage collection fans out one goroutine per entry, each testing the context only when it starts: with every
@@ -112,5 +108,7 @@ Example c09_cancel_nonvacuous :
   let r := copy_data false None KCancelled [1;2;3;4;5;6] [mkRd 2 RNone false; mkRd 2 RNone true; mkRd 2 RNone false] [] in
   r_bytes r = [1;2] /\ r_kind r = KCancelled /\ r_tr r = [EvRead false 2; EvWrite false 2 2; EvRead false 2].
 Proof. repeat split. Qed.
-Example c09_walk_nonvacuous : ops_after 2 (walk_entry 0 (D [F; D [F; F]])) = 9%nat /\ B_walk 0 = 10%nat.
+Example c09_walk_nonvacuous : ops_after 2 (walk_entry 0 (D [F 1; D [F 1; F 1]])) = 9%nat /\ B_walk 0 = 10%nat.
+Proof. split; reflexivity. Qed.
+Example c09_remove_nonvacuous : ops_after 1 (ep_trace ERemove (D [])) = 39%nat /\ ops_after 3 (ep_trace ECopy (D [F 2])) = 11%nat.
 Proof. split; reflexivity. Qed.
